@@ -302,10 +302,17 @@ class ExtractCompound(Case):
     func = "location.location_impl.CompoundInterval.extract_sequence"
     shard_depth = 3
 
-    def __init__(self, n):
-        self.n = n
-        self.name = f"CompoundInterval.extract_sequence[{n} blocks, symbolic parent text]"
+    def __init__(self, n, overlap=False):
+        self.n, self.overlap = n, overlap
+        self.name = (f"CompoundInterval.extract_sequence[{n} blocks{', blocks may overlap, nest or share a start' if overlap else ''}"
+                     f", symbolic parent text]")
         self.call = "(lambda s: (len(s), s, s.parent.location if s.parent is not None else None))(loc.extract_sequence())"
+        if overlap:
+            # the i-th mapped position is taken from the REAL point map (proved for every layout under C01), so the
+            # clause is the property statement itself and does not depend on the order the constructor stores
+            # blocks that share a start in
+            self.call = ("(lambda s: (len(s), s, s.parent.location if s.parent is not None else None, "
+                         "loc.relative_to_parent_pos(k) if 0 <= k < len(s) else -1))(loc.extract_sequence())")
         self.ensures = {
             "length": lambda i, r: r[0] == sum((e - s for s, e in zip(i.starts, i.ends)), 0),
             "i-th-base-is-image-of-i-th-position": lambda i, r: Implies(
@@ -313,12 +320,18 @@ class ExtractCompound(Case):
                 _char(r[1].sequence if hasattr(r[1], "attrs") else str(r[1]), i.k) == (
                     _char(i.text, _pos(i, i.k)) if i.plus else _comp_code(_char(i.text, _pos(i, i.k))))),
         }
+        if overlap:
+            self.ensures["i-th-base-is-image-of-i-th-position"] = lambda i, r: Implies(
+                And(0 <= i.k, i.k < r[0]),
+                _char(r[1].sequence if hasattr(r[1], "attrs") else str(r[1]), i.k) == (
+                    _char(i.text, r[3]) if i.plus else _comp_code(_char(i.text, r[3]))))
 
     def inputs(self, S):
         from .gene_common import block_lists, strand_of
         par, L = parent_with_sequence(S)
-        starts, ends = block_lists(S, "loc", self.n)
-        S.assume(ends[-1] <= L)
+        starts, ends = block_lists(S, "loc", self.n, allow_overlap=self.overlap)
+        for e in (ends if self.overlap else ends[-1:]):
+            S.assume(e <= L)
         strand = strand_of(S, "strand")
         loc = S.new(COMPOUND, starts, ends, strand, par)
         seq = par.sequence
@@ -329,15 +342,19 @@ class ExtractCompound(Case):
     def samples(self, rng):
         from .gene_common import sample_blocks
         d = sample_blocks(rng, "loc", self.n)
+        if self.overlap:
+            bl = sorted((lambda a: (a, a + rng.randint(1, 4)))(rng.randint(0, 6)) for _ in range(self.n))
+            d = {"loc_starts": [b[0] for b in bl], "loc_ends": [b[1] for b in bl]}
         d.update(strand=rng.choice(["PLUS", "MINUS"]), k=rng.randint(0, 8), q=rng.randint(0, 20),
-                 seq="".join(rng.choice("ACGT") for _ in range(d["loc_ends"][-1] + rng.randint(0, 3))))
+                 seq="".join(rng.choice("ACGT") for _ in range(max(d["loc_ends"]) + rng.randint(0, 3))))
         return d
 
     def observe(self, r):
         from pyvc.check import default_observe as o
         from .c02_single import obs_loc
         text = r[1].sequence if hasattr(r[1], "attrs") else str(r[1])
-        return [o(r[0]), text if isinstance(text, str) else None, obs_loc(r[2])[:3] if r[2] is not None else None]
+        return [o(r[0]), text if isinstance(text, str) else None, obs_loc(r[2])[:3] if r[2] is not None else None] + (
+            [o(r[3])] if len(r) > 3 else [])
 
 
 def _cov(loc, q):
@@ -417,4 +434,4 @@ def _chrom_base(i, p):
     return plus_strand_base if i.plus else _comp_code(plus_strand_base)
 
 
-CASES = [SliceLocated(), ReverseComplementLocated(), ReverseComplementCompoundLocated(), AppendLocated(), ToFasta(), ExtractSingle(), ExtractCompound(2), ExtractCompound(3), SplicedOnChunk(1), SplicedOnChunk(2)]
+CASES = [SliceLocated(), ReverseComplementLocated(), ReverseComplementCompoundLocated(), AppendLocated(), ToFasta(), ExtractSingle(), ExtractCompound(2), ExtractCompound(3), ExtractCompound(2, True), ExtractCompound(3, True), SplicedOnChunk(1), SplicedOnChunk(2)]
